@@ -89,6 +89,14 @@ CLayoutFrom(t, m, i, off, bu) ==
 
 CLayout(t, m) == CLayoutFrom(t, m, 1, 0, [rem |-> 0, base |-> ""])
 
+\* a definition the library must accept: no bit-field straddles its storage unit, anywhere
+RECURSIVE WellFormed(_, _)
+WellFormed(t, m) ==
+  CASE t.k = "struct" -> ~CLayout(t, m).straddle /\ \A i \in 1..Len(t.fields) : WellFormed(t.fields[i].type, m)
+    [] t.k = "union"  -> \A i \in 1..Len(t.fields) : WellFormed(t.fields[i].type, m)
+    [] t.k = "arr"    -> WellFormed(t.elem, m)
+    [] OTHER -> TRUE
+
 \* layout observation of a type as the harness projects it from the real class
 LayoutObs(t, m) ==
   IF t.k = "struct"
